@@ -53,6 +53,8 @@ def jobs(tier, seed):
         J.append(dict(name="key:%s:truncate-extend" % e, kind="keycut", enc=e, timeout=1800, cost=300))
     for what in ("public", "private"):
         J.append(dict(name="key:roundtrip:%s" % what, kind="roundtrip", what=what, timeout=1800, cost=300))
+        for cn in (["NIST521p"] if tier == "quick" else ["NIST192p", "NIST224p", "NIST384p", "NIST521p", "SECP256k1", "BRAINPOOLP256r1"]):
+            J.append(dict(name="key:roundtrip:%s:%s" % (what, cn), kind="roundtrip", what=what, curve=cn, timeout=1800, cost=400))
     for k in (1, 16, 31, 32, 33):
         J.append(dict(name="key:sec1-der:private-octets-%dbytes" % k, kind="shortkey", k=k, timeout=900, cost=60))
     J.append(dict(name="key:pub-der:inner-extension", kind="inner", enc="pub-der", timeout=1800, cost=200))
@@ -110,6 +112,45 @@ def insert_at_end(b, start, hl, ln, chain):
             return None
         b[s_ + 1: s_ + h_] = new
     return bytes(b)
+
+
+CURVE_OIDS = {"NIST192p": (1, 2, 840, 10045, 3, 1, 1), "NIST224p": (1, 3, 132, 0, 33), "NIST256p": (1, 2, 840, 10045, 3, 1, 7), "NIST384p": (1, 3, 132, 0, 34), "NIST521p": (1, 3, 132, 0, 35), "SECP256k1": (1, 3, 132, 0, 10), "BRAINPOOLP256r1": (1, 3, 36, 3, 3, 2, 8, 1, 1, 7)}
+
+
+def ref_oid(arcs):
+    """X.690 8.19 OBJECT IDENTIFIER, written independently of der.encode_oid"""
+    subs = [40 * arcs[0] + arcs[1]] + list(arcs[2:])
+    body = b""
+    for v in subs:
+        chunk = [v & 0x7F]
+        v >>= 7
+        while v:
+            chunk.insert(0, 0x80 | (v & 0x7F))
+            v >>= 7
+        body += bytes(chunk)
+    return b"\x06" + ref_len_octets(len(body)) + body
+
+
+def tlv(tag, *parts):
+    """tag || minimal definite length || content, content given as lists/bytes that may hold proxies"""
+    content = []
+    for p_ in parts:
+        content += list(p_)
+    return [tag] + list(ref_len_octets(len(content))) + content
+
+
+def ref_key_encodings(curve_name, L, x, y, d=None):
+    """SEC1 2.3.3 point strings, RFC 5480 SubjectPublicKeyInfo, RFC 5915 ECPrivateKey, RFC 5208 PrivateKeyInfo
+    for coordinate / scalar octet lists x, y, d of length L"""
+    oid_pub, oid_curve = ref_oid((1, 2, 840, 10045, 2, 1)), ref_oid(CURVE_OIDS[curve_name])
+    point = [4] + list(x) + list(y)
+    out = {"raw": list(x) + list(y), "uncompressed": point, "der": tlv(0x30, tlv(0x30, oid_pub, oid_curve), tlv(0x03, [0], point))}
+    if d is not None:
+        pubpart = tlv(0xA1, tlv(0x03, [0], point))
+        out["sk-raw"] = list(d)
+        out["sec1"] = tlv(0x30, [2, 1, 1], tlv(0x04, d), tlv(0xA0, oid_curve), pubpart)
+        out["pkcs8"] = tlv(0x30, [2, 1, 0], tlv(0x30, oid_pub, oid_curve), tlv(0x04, tlv(0x30, [2, 1, 1], tlv(0x04, d), pubpart)))
+    return out
 
 
 def ref_len_octets(l):
@@ -485,14 +526,19 @@ def run_job(job):
             # the header is what the real encoder writes in front of an uncompressed P-256 point
             results.append(("VerifyingKey.to_der() of a P-256 key starts with the 27-byte header", "unsat" if encs["pub-der"][:27] == hdr and len(encs["pub-der"]) == 27 + 64 else "sat", dict(der=encs["pub-der"].hex())))
         elif kind == "roundtrip":
-            P256 = ec.NIST256p
+            CN = job.get("curve", "NIST256p")
+            P256 = getattr(ec, CN)  # (named P256 for the default; any short-Weierstrass curve of the table)
             n_ = P256.order
-            OID_PUB, OID_P256 = bytes.fromhex("06072a8648ce3d0201"), bytes.fromhex("06082a8648ce3d030107")
-            SPKI = bytes.fromhex("3059301306072a8648ce3d020106082a8648ce3d03010703420004")
+            L = (P256.curve.p().bit_length() + 7) // 8  # octet length of a field element (SEC1 2.3.5), independent of the library's tables
 
             if job["what"] == "public":
                 def fn():
-                    raw = symbytes.sym_bytes("r", 64)
+                    raw = symbytes.sym_bytes("r", 2 * L)
+                    if (8 * L) % P256.curve.p().bit_length():
+                        # coordinates have spare leading bits (P-521): the first octet of x and y is constrained to the field size
+                        top = P256.curve.p() >> (8 * (L - 1))
+                        if not (list(raw)[0] <= top and list(raw)[L] <= top):
+                            return raw, ("exc", "MalformedPointError", "skipped: leading octet beyond the field"), {}
                     out = {}
                     k_ = guarded(lambda: ec.VerifyingKey.from_string(raw, P256))
                     if k_[0] != "ok":
@@ -505,7 +551,7 @@ def run_job(job):
                     out["der"] = guarded(lambda: vk.to_der())
                     if out["der"][0] == "ok":
                         out["der-back"] = guarded(lambda: ec.VerifyingKey.from_der(out["der"][1]))
-                    ybit = 1 if (BV.lift(list(raw)[63]) & 1) == 1 else 0
+                    ybit = 1 if (BV.lift(list(raw)[2 * L - 1]) & 1) == 1 else 0
                     return raw, k_, dict(out, ybit=ybit)
 
                 acc = 0
@@ -516,9 +562,13 @@ def run_job(job):
                             decide("from_string(raw) raised %s: %s" % k_[1:], pc, False, inputs)
                         continue
                     acc += 1
-                    x, y = list(raw)[:32], list(raw)[32:]
+                    x, y = list(raw)[:L], list(raw)[L:]
                     ybit = out.pop("ybit")
-                    ref = {"raw": x + y, "uncompressed": [4] + x + y, "hybrid": [6 + ybit] + x + y, "compressed": [2 + ybit] + x, "der": list(SPKI) + x + y}
+                    gen = ref_key_encodings(CN, L, x, y)
+                    ref = {"raw": gen["raw"], "uncompressed": gen["uncompressed"], "hybrid": [6 + ybit] + x + y, "compressed": [2 + ybit] + x, "der": gen["der"]}
+                    if CN == "NIST256p":
+                        # the generic reference agrees with the literal OpenSSL prefix for P-256
+                        assert bytes(gen["der"][:27]) == bytes.fromhex("3059301306072a8648ce3d020106082a8648ce3d03010703420004")
                     for e_, want in ref.items():
                         r = out[e_]
                         if r[0] != "ok":
@@ -536,10 +586,11 @@ def run_job(job):
                         pt = b_[1].pubkey.point
                         decide("decode(encode_%s(key)) = key" % e_, pc, z3.And(eqi(pt.x(), symbytes.be_value(x)), eqi(pt.y(), symbytes.be_value(y))), inputs)
                 if acc == 0:
-                    results.append(("no accepting path (vacuous)", "unknown", None))
+                    # the curve test is nondeterministic here: a decoder that rejects every 2L-octet string rejects every key
+                    results.append(("from_string rejects every %d-octet raw public key" % (2 * L), "sat", dict(raw=_hexify(bytes(2 * L)), rejects_all=True)))
             else:
                 def fn():
-                    d = BV.var("d", 0, 1 << 256)
+                    d = BV.var("d", 0, 1 << (8 * L))
                     out = {}
                     k_ = guarded(lambda: ec.SigningKey.from_secret_exponent(d, P256))
                     if k_[0] != "ok":
@@ -569,15 +620,13 @@ def run_job(job):
                     sk = k_[1]
                     # the public point written into the DER forms is whatever the (stubbed) multiplication gave: taken from the key
                     pp = sk.verifying_key.pubkey.point
-                    pub = list(pp.x().to_bytes(32, "big") if isinstance(pp.x(), int) else pp.x().to_bytes(32)) + list(pp.y().to_bytes(32, "big") if isinstance(pp.y(), int) else pp.y().to_bytes(32))
+                    px, py = list(int(pp.x()).to_bytes(L, "big")), list(int(pp.y()).to_bytes(L, "big"))
                     dd = BV.lift(d)
-                    dbytes = [symbytes.byte_of(dd, 31 - i) for i in range(32)]
-                    inner_tail = list(bytes.fromhex("a14403420004")) + pub
-                    ref = {
-                        "raw": dbytes,
-                        "sec1": list(bytes.fromhex("30770201010420")) + dbytes + list(bytes.fromhex("a00a")) + list(OID_P256) + inner_tail,
-                        "pkcs8": list(bytes.fromhex("308187020100301306072a8648ce3d020106082a8648ce3d030107046d306b0201010420")) + dbytes + inner_tail,
-                    }
+                    dbytes = [symbytes.byte_of(dd, L - 1 - i) for i in range(L)]
+                    gen = ref_key_encodings(CN, L, px, py, dbytes)
+                    ref = {"raw": gen["sk-raw"], "sec1": gen["sec1"], "pkcs8": gen["pkcs8"]}
+                    if CN == "NIST256p":
+                        assert bytes(gen["sec1"][:7]) == bytes.fromhex("30770201010420") and bytes(gen["pkcs8"][:36]) == bytes.fromhex("308187020100301306072a8648ce3d020106082a8648ce3d030107046d306b0201010420")
                     for e_, want in ref.items():
                         r = out[e_]
                         if r[0] != "ok":
@@ -587,8 +636,9 @@ def run_job(job):
                         if e_ == "pkcs8" and len(got_) == len(want):
                             # PrivateKeyInfo.version: OpenSSL writes 0, this library writes 1 and reads both (RFC 5958 allows
                             # both numbers); the reference accepts either and fixes every other octet
-                            decide("pkcs8 version octet is 0 or 1", pc, z3.Or(eqi(got_[5], 0), eqi(got_[5], 1)), inputs)
-                            got_, want = got_[:5] + got_[6:], want[:5] + want[6:]
+                            vi = 1 + len(ref_len_octets(len(want) - 1 - len(ref_len_octets(len(want))))) + 2 if False else want.index(2, 1) + 2
+                            decide("pkcs8 version octet is 0 or 1", pc, z3.Or(eqi(got_[vi], 0), eqi(got_[vi], 1)), inputs)
+                            got_, want = got_[:vi] + got_[vi + 1:], want[:vi] + want[vi + 1:]
                         decide("private %s encoding = RFC 5915 / RFC 5208 reference" % e_, pc, eqb(got_, want), inputs)
                         b_ = out.get(e_ + "-back")
                         if b_[0] != "ok":
@@ -829,6 +879,10 @@ def replay(job):
             v, used = r[1]
             return dict(reproduced=ref_len_octets(v) != buf[:used], signature=sig, detail="read_length(%s) accepted %d in non-minimal form" % (buf.hex(), v))
         return dict(reproduced=False, detail="decoder returned %r" % (r,))
+    if kind in ("keypos", "keycut", "inner", "header", "shortkey") or inp.get("setup"):
+        r0 = run(lambda: _encodings(ec))
+        if r0[0] == "exc":
+            return dict(reproduced=True, signature=sig, detail="encoding an ordinary P-256 key pair raised %s: %s" % r0[1:])
     if kind in ("keypos", "keycut"):
         encs, sk0, vk0 = _encodings(ec)
         enc = inp.get("enc", job["enc"])
@@ -851,19 +905,33 @@ def replay(job):
             return dict(reproduced=False, detail="%s: accepted" % desc)
         return dict(reproduced=True, signature=sig, detail="%s: accepted" % desc)
     if kind == "roundtrip":
-        P = ec.NIST256p
-        SPKI = bytes.fromhex("3059301306072a8648ce3d020106082a8648ce3d03010703420004")
+        CN = job.get("curve", "NIST256p")
+        P = getattr(ec, CN)
+        L = (P.curve.p().bit_length() + 7) // 8
         sk_of = ec.SigningKey.from_secret_exponent
+        n_ = P.order
+        r0 = run(lambda: _encodings(ec))
+        if r0[0] == "exc":
+            return dict(reproduced=True, signature=sig, detail="encoding an ordinary P-256 key pair raised %s: %s" % r0[1:])
+
+        def raw_point(k):
+            pt = P.generator * k
+            return int(pt.x()).to_bytes(L, "big") + int(pt.y()).to_bytes(L, "big")
+
+        def pk8_ok(got, want):
+            vi = want.index(2, 1) + 2
+            return got == want or (len(got) == len(want) and got[:vi] + got[vi + 1:] == want[:vi] + want[vi + 1:] and got[vi] in (0, 1))
+
         if job["what"] == "public":
-            cands = [inp["raw"]] if isinstance(inp.get("raw"), bytes) else []
+            cands = [inp["raw"]] if isinstance(inp.get("raw"), bytes) and len(inp["raw"]) == 2 * L else []
             # the curve test is nondeterministic in the symbolic run: real points, among them leading-zero coordinates
             i = 1
-            while len(cands) < 600:
-                c = sk_of(i * 104729 + 7, P).verifying_key.to_string()
+            while len(cands) < (600 if L <= 32 else 120):
+                c = raw_point(i * 104729 + 7)
                 i += 1
-                if len(cands) < 300 or c[0] == 0 or c[32] == 0:
+                if len(cands) < (300 if L <= 32 else 60) or c[0] == 0 or c[L] == 0:
                     cands.append(c)
-                if i > 40000:
+                if i > (40000 if L <= 32 else 3000):
                     break
             for c in cands:
                 r = run(lambda: ec.VerifyingKey.from_string(c, P))
@@ -872,46 +940,49 @@ def replay(job):
                         return dict(reproduced=True, signature=sig, detail="from_string(%s): %s: %s" % (c.hex(), r[1], r[2]))
                     continue
                 vk = r[1]
-                x, y = c[:32], c[32:]
+                x, y = c[:L], c[L:]
                 yb = y[-1] & 1
+                gen = ref_key_encodings(CN, L, x, y)
                 ref = {"raw": x + y, "uncompressed": b"\x04" + x + y, "hybrid": bytes([6 + yb]) + x + y, "compressed": bytes([2 + yb]) + x}
                 for e_, want in ref.items():
                     g = run(lambda: vk.to_string(e_))
                     if g != ("ok", want):
-                        return dict(reproduced=True, signature=sig, detail="to_string(%s) of point %s -> %r, SEC1: %s" % (e_, c.hex(), g, want.hex()))
+                        return dict(reproduced=True, signature=sig, detail="%s: to_string(%s) of point %s -> %r, SEC1: %s" % (CN, e_, c.hex(), g, want.hex()))
                     b_ = run(lambda: ec.VerifyingKey.from_string(want, P).to_string())
                     if b_ != ("ok", c):
-                        return dict(reproduced=True, signature=sig, detail="from_string(%s encoding %s) -> %r" % (e_, want.hex(), b_))
+                        return dict(reproduced=True, signature=sig, detail="%s: from_string(%s encoding %s) -> %r" % (CN, e_, want.hex(), b_))
+                spki = bytes(gen["der"])
                 g = run(lambda: vk.to_der())
-                b_ = run(lambda: ec.VerifyingKey.from_der(SPKI + c).to_string())
-                if g != ("ok", SPKI + c) or b_ != ("ok", c):
-                    return dict(reproduced=True, signature=sig, detail="DER of point %s: to_der %r, from_der(reference) %r" % (c.hex(), g, b_))
+                b_ = run(lambda: ec.VerifyingKey.from_der(spki).to_string())
+                if g != ("ok", spki) or b_ != ("ok", c):
+                    return dict(reproduced=True, signature=sig, detail="%s: DER of point %s: to_der %r, from_der(reference %s) %r" % (CN, c.hex(), g, spki.hex(), b_))
+            if cands and all(run(lambda: ec.VerifyingKey.from_string(c, P))[0] == "exc" for c in cands[:50]):
+                return dict(reproduced=True, signature=sig, detail="%s: from_string rejects valid %d-octet raw public keys, e.g. %s" % (CN, 2 * L, cands[-1].hex()))
             return dict(reproduced=False, detail="no candidate of %d reproduced" % len(cands))
-        n_ = P.order
         ds = [inp["d"]] if isinstance(inp.get("d"), int) else []
-        ds += [0, 1, 2, 255, 256, (1 << 248) - 1, 1 << 248, (1 << 255), n_ - 1, n_, n_ + 1, (1 << 256) - 1, 1 << 256, SECEXP]
+        ds += [0, 1, 2, 255, 256, (1 << (8 * L - 8)) - 1, 1 << (8 * L - 8), n_ >> 1, n_ - 1, n_, n_ + 1, (1 << (8 * L)) - 1, 1 << (8 * L), SECEXP % n_]
         for d in ds:
             r = run(lambda: sk_of(d, P))
             inr = 1 <= d < n_
             if r[0] == "exc":
                 if r[1] not in ALLOWED or inr:
-                    return dict(reproduced=True, signature=sig, detail="from_secret_exponent(%d): %s: %s" % (d, r[1], r[2]))
+                    return dict(reproduced=True, signature=sig, detail="%s: from_secret_exponent(%d): %s: %s" % (CN, d, r[1], r[2]))
                 continue
             if not inr:
-                return dict(reproduced=True, signature=sig, detail="scalar %d outside 1..n-1 accepted" % d)
+                return dict(reproduced=True, signature=sig, detail="%s: scalar %d outside 1..n-1 accepted" % (CN, d))
             sk = r[1]
-            db = d.to_bytes(32, "big")
-            pub = sk.verifying_key.to_string()
-            tail = bytes.fromhex("a14403420004") + pub
-            ref = {"raw": db, "sec1": bytes.fromhex("30770201010420") + db + bytes.fromhex("a00a06082a8648ce3d030107") + tail, "pkcs8": bytes.fromhex("308187020100301306072a8648ce3d020106082a8648ce3d030107046d306b0201010420") + db + tail}
+            db = d.to_bytes(L, "big")
+            pub = raw_point(d)
+            gen = ref_key_encodings(CN, L, pub[:L], pub[L:], db)
+            ref = {"raw": db, "sec1": bytes(gen["sec1"]), "pkcs8": bytes(gen["pkcs8"])}
             for e_, want in ref.items():
                 g = run(lambda: sk.to_string() if e_ == "raw" else sk.to_der() if e_ == "sec1" else sk.to_der(format="pkcs8"))
-                ok = g[0] == "ok" and (g[1] == want or (e_ == "pkcs8" and len(g[1]) == len(want) and g[1][:5] + g[1][6:] == want[:5] + want[6:] and g[1][5] in (0, 1)))
+                ok = g[0] == "ok" and (g[1] == want or (e_ == "pkcs8" and pk8_ok(g[1], want)))
                 if not ok:
-                    return dict(reproduced=True, signature=sig, detail="private %s encoding of d=%d: %r, reference %s" % (e_, d, g, want.hex()))
+                    return dict(reproduced=True, signature=sig, detail="%s: private %s encoding of d=%d: %r, reference %s" % (CN, e_, d, g, want.hex()))
                 b_ = run(lambda: (ec.SigningKey.from_string(want, P) if e_ == "raw" else ec.SigningKey.from_der(want)).privkey.secret_multiplier)
                 if b_ != ("ok", d):
-                    return dict(reproduced=True, signature=sig, detail="decoding the reference %s encoding of d=%d -> %r" % (e_, d, b_))
+                    return dict(reproduced=True, signature=sig, detail="%s: decoding the reference %s encoding of d=%d -> %r" % (CN, e_, d, b_))
         return dict(reproduced=False, detail="no candidate reproduced")
     if kind == "shortkey":
         k = job["k"]
